@@ -10,18 +10,22 @@ from ..refs import units_ref as R
 from ..refs import unit_gens as G
 
 ID = "C07"
-RULE = ("One case = an operation (+ - * / ** neg == value(unit); ufuncs sqrt cbrt power sin cos tan arcsin arccos arctan "
-        "isnan; functions abs round floor ceil sum linspace logspace) on operands drawn from: same unit, same dimension "
-        "other unit (random unit expressions), dB/B/Np-type levels, Decimal magnitudes mixed with float, arrays, "
-        "with/without uncertainty, angles in deg/mrad, plain numbers, bare numbers brought into cm/m-type quotients by "
-        "to(), the operand itself or -a / a+a as the other operand, augmented assignments (+= -= *= /=) on a second "
-        "reference; followed by up to 5 in-place calls "
-        "(to(unit), rebase(), abse(e), rele(r)) on the result or on an operand. Oracle: value/units/abse snapshot of "
-        "every operand taken before the operation must be reported unchanged after it (returned or raised), and after "
-        "every in-place call on object X every OTHER object (operands and result) must report its snapshot. "
-        "Non-trivial: operands in different units, or logarithmic units, or Decimal mixed with float, or an angle "
-        "Round 4: temperature operands (K, Cel, degF, degR arrays); a query answered once, then again after an unrelated Decimal quantity used the same unit strings. "
-        "function on non-radian input, and the operation did not raise. Distinct = distinct case JSON.")
+RULE = (
+    'One case = an operation (+ - * / ** neg == value(unit); ufuncs sqrt cbrt power sin cos tan arcsin arccos '
+    'arctan isnan; functions abs round floor ceil sum linspace logspace) on operands drawn from: same unit, same '
+    'dimension other unit (random unit expressions), dB/B/Np-type levels, Decimal magnitudes mixed with float, '
+    'arrays, with/without uncertainty, angles in deg/mrad, plain numbers, bare numbers brought into cm/m-type '
+    'quotients by to(), the operand itself or -a / a+a as the other operand, augmented assignments (+= -= *= /=) '
+    'on a second reference; followed by up to 5 in-place calls (to(unit), rebase(), abse(e), rele(r)) on the '
+    'result or on an operand. Oracle: value/units/abse snapshot of every operand taken before the operation must '
+    'be reported unchanged after it (returned or raised), and after every in-place call on object X every OTHER '
+    'object (operands and result) must report its snapshot. Non-trivial: operands in different units, or '
+    'logarithmic units, or Decimal mixed with float, or an angle function on non-radian input, and the operation '
+    'did not raise. Round 4: temperature operands (K, Cel, degF, degR arrays); a query answered once, then again '
+    'after an unrelated Decimal quantity used the same unit strings. Later rounds: zero operands in another unit; '
+    'slices sharing their buffer (getitem followed by a write into one side); the identity power. Distinct = '
+    'distinct case JSON.'
+)
 ASSUMPTIONS = [
     "a float operand that comes back as an equal Decimal (or vice versa) is NOT counted as altered (same value)",
     "values compared exactly (NaN equals NaN); units compared as the rendered string; abse compared exactly",
